@@ -20,6 +20,19 @@ CLAIMS = {
              'arguments symbolic. Right level: the configuration space is finite and small, the solver covers it '
              'completely and decides argument equality for all values.',
         ref='5 C13', technique='symbolic execution (CrossHair+z3) of the real dispatch code vs reference resolution'),
+    'C06': dict(
+        text='Bounded symbolic execution of the real emit(callback=)/_handle_eio_message/_handle_ack/trigger_callback/'
+             'call() of Server+Manager and AsyncServer+AsyncManager over all histories of 3 (thorough 4) operations on '
+             '2 transports x 2 namespaces with symbolic ACK ids, against a reference table of outstanding callbacks; '
+             'call() under every order of ACK / timeout / disconnect (wait hook; all miniloop schedules). Exhaustive '
+             'within those bounds; longer histories are outside the claim.',
+        ref='5 C06', technique='symbolic execution (CrossHair+z3) of real server/manager code over bounded histories'),
+    'C09': dict(
+        text='Bounded symbolic execution of the real Client/AsyncClient event dispatch, ACK construction, '
+             '_generate_ack_id, _handle_ack and call(): every single incoming event shape in the stated palette with '
+             'symbolic ids/arguments/returns, and all histories of 4 (thorough 5) emit/ACK operations on 2 namespaces '
+             'against a reference table. Exhaustive within those bounds.',
+        ref='5 C09', technique='symbolic execution (CrossHair+z3) of real client code over bounded histories'),
 }
 
 PENDING = 'check not built yet in this tree (work in progress); no claim is made'
